@@ -114,7 +114,7 @@ func (w *World) boot(delay time.Duration) {
 	w.q = nil
 	w.s.Spawn(fmt.Sprintf("boot%d", w.incN), inc, func() {
 		if delay > 0 {
-			time.Sleep(delay)
+			simrt.Sleep(delay)
 			simrt.Yield("boot:after-delay")
 		}
 		var bounce module.DeliveryTarget
